@@ -116,6 +116,11 @@ Proof. exact no_shared_dict_binding. Qed.
 Theorem C14_flag_functions_modelled : unmodelled_flags = nil.
 Proof. exact flag_functions_modelled. Qed.
 
+(* NOTE (later round): `C14_inplace_eq_full` above is superseded — as written it is false (it does not
+   require the second operand to exist and compares the wrong result locals for drop_misaligned_sectors:
+   `C14_inplace_eq_full_v1_refuted` in Props/C14b.v); the corrected full statement is proved there as
+   `C14_inplace_eq` for EVERY flag-offering operation via a store-isomorphism simulation. *)
+
 Print Assumptions C14_script_frame.
 Print Assumptions C14_all_scripts_accepted.
 Print Assumptions C14_op_frame.
